@@ -150,11 +150,11 @@ class stv_run_step:
                                     and len(self.election_states[-1].eliminated[0]) == 1
                                     and self.election_states[-1].eliminated[0] <= prev_state.remaining[-1]
                                     # its ballots move on at full weight: the returned profile is remove_cand's result for that candidate
-                                    and implies(len(keep_cands(profile.candidates, len(profile.candidates), [the(self.election_states[-1].eliminated[0])])) > 0,
+                                    and implies(len(keep_cands(profile.candidates, len(profile.candidates), frozenset([the(self.election_states[-1].eliminated[0])]))) > 0,
                                                 result.candidates == keep_cands(profile.candidates, len(profile.candidates),
-                                                                                [the(self.election_states[-1].eliminated[0])]))
+                                                                                frozenset([the(self.election_states[-1].eliminated[0])])))
                                     and wrank(result.ballots, len(result.ballots), k)
-                                    == wrank(rc_prefix(profile.ballots, len(profile.ballots), [the(self.election_states[-1].eliminated[0])]),
+                                    == wrank(rc_prefix(profile.ballots, len(profile.ballots), frozenset([the(self.election_states[-1].eliminated[0])])),
                                              len(profile.ballots), k)
                                     and implies(len(prev_state.remaining[-1]) > 1,
                                                 bool(self.election_states[-1].tiebreaks)
@@ -168,4 +168,4 @@ class stv_run_step:
         return cat_elected_take(self.election_states, prev_state.round_number + 1, prev_state.round_number + 1)
 
     def hint_raise_ValueError(profile, eliminated_cand):
-        return keep_cands_distinct(profile.candidates, len(profile.candidates), [eliminated_cand])
+        return keep_cands_distinct(profile.candidates, len(profile.candidates), frozenset([eliminated_cand]))
